@@ -9,6 +9,8 @@ import (
 	"path/filepath"
 	"regexp"
 	"runtime"
+	"runtime/debug"
+	"runtime/pprof"
 	"sort"
 	"strconv"
 	"strings"
@@ -271,7 +273,7 @@ func replayNative(l *Loaded, h HarnessCfg, params map[string]int, v Violation, d
 		Assert  string         `json:"assert"`
 		Pkg     string         `json:"pkg"`
 	}
-	data, _ := json.MarshalIndent(inputs{Harness: h.Name, Params: params, Draws: v.Inputs, Assert: v.Assert, Pkg: h.Pkg}, "", " ")
+	data, _ := json.MarshalIndent(inputs{Harness: strings.TrimPrefix(h.Fn, "Verif"), Params: params, Draws: v.Inputs, Assert: v.Assert, Pkg: h.Pkg}, "", " ")
 	inPath := filepath.Join(dir, "inputs.json")
 	os.WriteFile(inPath, data, 0644)
 	out, err := runNative(l, h.Pkg, inPath, dir)
@@ -741,6 +743,8 @@ func cmdReplay(args []string) int {
 	return 0
 }
 
+var exitFn = os.Exit
+
 func main() {
 	if len(os.Args) < 2 {
 		fmt.Fprintln(os.Stderr, "usage: gosym check|run|replay|selftest ...")
@@ -750,15 +754,25 @@ func main() {
 		verifDir = v
 	}
 	os.MkdirAll(filepath.Join(verifDir, ".work"), 0755)
+	if os.Getenv("GOGC") == "" {
+		debug.SetGCPercent(400) // the interpreter allocates short-lived values at a high rate
+	}
+	if pf := os.Getenv("GOSYM_PROF"); pf != "" {
+		f, _ := os.Create(pf)
+		pprof.StartCPUProfile(f)
+		defer pprof.StopCPUProfile()
+		prevExit := exitFn
+		exitFn = func(c int) { pprof.StopCPUProfile(); prevExit(c) }
+	}
 	switch os.Args[1] {
 	case "check":
-		os.Exit(cmdCheck(os.Args[2:]))
+		exitFn(cmdCheck(os.Args[2:]))
 	case "run":
-		os.Exit(cmdRun(os.Args[2:]))
+		exitFn(cmdRun(os.Args[2:]))
 	case "replay":
-		os.Exit(cmdReplay(os.Args[2:]))
+		exitFn(cmdReplay(os.Args[2:]))
 	case "selftest":
-		os.Exit(cmdSelftest(os.Args[2:]))
+		exitFn(cmdSelftest(os.Args[2:]))
 	}
 	fmt.Fprintln(os.Stderr, "unknown command", os.Args[1])
 	os.Exit(2)
